@@ -618,6 +618,9 @@ func (r *R) Gen(ctx sdk.Context, g *hx.Rng) string {
 		return hex.EncodeToString(htlctypes.GetHashLock(secretN(ks), uint64(ts)))
 	}
 	create := func(sender, to string, coins string, lock string, ts, tl int64, transfer bool) string {
+		if g.Chance(1, 12) || (to == "M" && g.Chance(1, 2)) {
+			to += "^" // the recipient in its upper-case bech32 spelling: another valid spelling of the same address
+		}
 		return "htlc create " + hx.KV("sender", sender, "to", to, "coins", coins, "lock", lock, "ts", ts, "tl", tl, "transfer", b01(transfer))
 	}
 	if r.Genesis && g.Chance(1, 5) {
@@ -1130,7 +1133,11 @@ func (r *R) Exec(ctx sdk.Context, line string) (sdk.Context, string) {
 		}
 		return ctx, fmt.Sprintf("%s same=%d %s", class, same, r.state(ctx))
 	case "create":
-		msg = &htlctypes.MsgCreateHTLC{Sender: r.addr(a["sender"]).String(), To: r.addr(a["to"]).String(),
+		to := r.addr(strings.TrimSuffix(a["to"], "^")).String()
+		if strings.HasSuffix(a["to"], "^") {
+			to = strings.ToUpper(to)
+		}
+		msg = &htlctypes.MsgCreateHTLC{Sender: r.addr(a["sender"]).String(), To: to,
 			ReceiverOnOtherChain: "r", SenderOnOtherChain: "s", Amount: parseCoins(a["coins"]), HashLock: a["lock"],
 			Timestamp: uint64(i64("ts")), TimeLock: uint64(i64("tl")), Transfer: a["transfer"] == "1"}
 	case "claim":
